@@ -172,7 +172,10 @@ def rand_tree(rng):
     prod = {"cls": "Prod", "pkg": "p", "methods": [{"name": "t0", "annos": ["Test"], "atoms": ["print"]}], "helpers": {"helpAssert": [], "helpPlain": []}}
     files["src/main/java/p/Prod.java" if layout == "maven" else "Prod.java"] = to_java(prod, rng)
     files["notes.txt"] = "@Test void x() {}"
-    return {"op": "tbsdir", "files": files, "classes": classes}
+    c = {"op": "tbsdir", "files": files, "classes": classes}
+    if rng.random() < 0.15:
+        c["cli"] = True        # through the real `coca tbs -p dir` in a fresh process (coca_reporter/tbs.json, tdeps.json)
+    return c
 
 
 def gen(rng, tier):
